@@ -5,7 +5,7 @@ From V.c14 Require Import C14Model.
 From V.c15 Require Import C15Model C15HevcModel.
 From V.c17 Require Import C17Spec C17Model C17TypedModel.
 From V.c18 Require Import C18Model.
-From V.c16 Require Import C16Model C16ParseModel C16AuxModel C16SeiNaluModel C16ConfRecModel C16HevcParseModel C16HevcPipeModel C16Av1EncModel C16SeiStrModel.
+From V.c16 Require Import C16Model C16ParseModel C16AuxModel C16SeiNaluModel C16ConfRecModel C16HevcParseModel C16HevcPipeModel C16Av1EncModel C16SeiStrModel C16SeiFswModel.
 Require Import ExtrOcamlBasic.
 Separate Extraction
   avc_get_nalus_from_sample avc_find_nalu_types avc_find_nalu_types_upto
@@ -17,6 +17,8 @@ Separate Extraction
   c16_parse_sps c16_parse_pps c16_parse_slice sps_lookup pps_lookup chroma_lookup get_slice_type
   parse_cea608_p decode_registered_p extract_cea608_p decode_unregistered_p mdcv_decode_p cll_decode_p
   mdcv_payload_p cll_payload_p pass_string_cost
+  tc_payload_p pt_payload_p tc_value_of_bytes pt_value_of_bytes C17TypedModel.tc_size C17TypedModel.pt_size
+  C17TypedModel.tc_payload C17TypedModel.pt_payload
   extract_sei_data_go C17TypedModel.tc_decode C17TypedModel.pt_decode
   avc_pt_of_sps avc_parse_sei_nalu hevc_parse_sei_nalu
   avc_decode_dec_conf_rec hevc_decode_dec_conf_rec hevc_decode_full av1_decode_codec_conf_rec
